@@ -734,6 +734,16 @@ def canon_expr(node: ast.AST, env: Env) -> Term:
                 hi = add(ln, hi)
             if lo is not None and is_const(lo) and const_value(lo) < 0:
                 lo = add(ln, lo)
+            rc = _range_comp(bsa)
+            if rc is not None and st is None:
+                # a slice of `[f(i) for i in range(a, b)]` whose bounds provably lie inside it is the comprehension over the
+                # sub-range (a slice clamps its bounds, a range does not: hence the proviso)
+                elt_, a_, b_ = rc
+                p_ = lo if lo is not None else ZERO
+                q_ = hi if hi is not None else sub(b_, a_)
+                inside = is_const(p_) and const_value(p_) >= 0 and is_const(sub(q_, sub(b_, a_))) and const_value(sub(q_, sub(b_, a_))) <= 0
+                if inside:
+                    return atom(('listcomp', elt_, ((atom(('call', 'range', (add(a_, p_), add(a_, q_)))), (0,), ()),)))
             return atom(('sub', bsa, ('slice', lo, hi, st)))
         if isinstance(sl, ast.Tuple):
             idx = ('tuple', tuple(canon_expr(e, env) for e in sl.elts))
@@ -741,6 +751,11 @@ def canon_expr(node: ast.AST, env: Env) -> Term:
         idx = canon_expr(sl, env)
         if is_poly(idx) and is_const(idx) and const_value(idx) < 0:
             idx = add(_len_of(bsa, env), idx)
+        rc = _range_comp(bsa)
+        if rc is not None and is_poly(idx):
+            # element k of `[f(i) for i in range(a, b)]` is f(a + k) (where the element exists)
+            elt_, a_, b_ = rc
+            return to_poly(subst_atoms(elt_, {('bound', 0): add(a_, idx)}))
         # versioned read after a store in the same region
         r = atom(('sub', _versioned(bsa, env), idx))
         root = bsa
@@ -777,7 +792,8 @@ def canon_expr(node: ast.AST, env: Env) -> Term:
                 conds = tuple(canon_cond(c_, e2) for c_ in g.ifs)
                 gens.append((it, tuple(names), conds))
             elt = canon_expr(node.elt, e2)
-            return atom(('listcomp', elt, tuple(gens)))
+            lc = _neighbours_as_range(('listcomp', elt, tuple(gens)))
+            return atom(lc)
         except CanonError:
             return atom(('listcomp', ast.dump(node)))
     if isinstance(node, ast.Starred):
@@ -785,11 +801,67 @@ def canon_expr(node: ast.AST, env: Env) -> Term:
     raise CanonError(f"expression kind {type(node).__name__}")
 
 
+def _range_comp(bsa):
+    """`[elt(i) for i in range(a, b)]` (one generator, one variable, no filter) -> (elt, a, b)"""
+    if not (isinstance(bsa, tuple) and bsa and bsa[0] == 'listcomp' and len(bsa) == 3 and len(bsa[2]) == 1):
+        return None
+    it, names, conds = bsa[2][0]
+    if names != (0,) or conds:
+        return None
+    ia = single_atom(it) if is_poly(it) else it
+    if ia is None or ia[0] != 'call' or ia[1] not in ('range', 'xrange') or len(ia) > 3:
+        return None
+    args = ia[2]
+    if len(args) == 1:
+        return bsa[1], ZERO, to_poly(args[0])
+    if len(args) == 2:
+        return bsa[1], to_poly(args[0]), to_poly(args[1])
+    return None
+
+
+def _neighbours_as_range(lc: tuple) -> tuple:
+    """`[f(a, b) for a, b in zip(X[:-1], X[1:])]` is `[f(X[i], X[i+1]) for i in range(0, len(X) - 1)]` (both slices have
+    len(X) - 1 elements, zip pairs them up in order)"""
+    if len(lc[2]) != 1:
+        return lc
+    it, names, conds = lc[2][0]
+    if names != (0, 1) or conds:
+        return lc
+    ia = single_atom(it) if is_poly(it) else it
+    if ia is None or ia[0] != 'call' or ia[1] != 'zip' or len(ia) > 3 or len(ia[2]) != 2:
+        return lc
+    s0 = single_atom(ia[2][0]) if is_poly(ia[2][0]) else ia[2][0]
+    s1 = single_atom(ia[2][1]) if is_poly(ia[2][1]) else ia[2][1]
+    if not (s0 and s1 and s0[0] == 'sub' and s1[0] == 'sub' and s0[1] == s1[1]
+            and isinstance(s0[2], tuple) and isinstance(s1[2], tuple) and s0[2][:1] == ('slice',) and s1[2][:1] == ('slice',)):
+        return lc
+    X = s0[1]
+    n = atom(('call', 'len', (atom(X),)))
+    _, lo0, hi0, st0 = s0[2]
+    _, lo1, hi1, st1 = s1[2]
+    first_ok = (lo0 is None or lo0 == ZERO) and hi0 == sub(n, ONE) and st0 is None
+    second_ok = lo1 == ONE and (hi1 is None or hi1 == n) and st1 is None
+    if not (first_ok and second_ok):
+        return lc
+    i = atom(('bound', 0))
+    elt = subst_atoms(lc[1], {('bound', 1): atom(('sub', X, add(i, ONE)))})
+    elt = subst_atoms(elt, {('bound', 0): atom(('sub', X, i))})
+    # (the substitution of bound 0 must not touch the index variable introduced for bound 1: done in this order, the new
+    # `i` inside X[i + 1] would be replaced again - so build with a placeholder)
+    ph = atom(('bound', 99))
+    elt = subst_atoms(lc[1], {('bound', 1): atom(('sub', X, add(ph, ONE))), ('bound', 0): atom(('sub', X, ph))})
+    elt = subst_atoms(elt, {('bound', 99): i})
+    return ('listcomp', elt, ((atom(('call', 'range', (ZERO, sub(n, ONE)))), (0,), ()),))
+
+
 def _len_of(bsa: tuple, env: Env) -> Term:
     if bsa in env.lens:
         return env.lens[bsa]
     if bsa[0] == 'alloc':
         return bsa[2]
+    rc = _range_comp(bsa)
+    if rc is not None:
+        return sub(rc[2], rc[1])
     return atom(('call', 'len', (atom(bsa),)))
 
 
